@@ -34,7 +34,7 @@ CLAIMED = {
          "Trusted: TLC; Kleene semantics of AND/OR/NOT/=/<>/IS; the expression parser of C05; SQLite engine.",
          "§5 C06, Appendix A"),
  "C10": ("src/query/insert.rs as a TLA+ state machine (columns / source / default_values; one action per public call); TLC explores every call history up to the tier's length with an invariant on Results, an action property on rejected calls and a rendering-vs-accepted-rows check; all histories are replayed step by step on the real InsertStatement and validated by TLC against the property-level reading of the history",
-         "Model checking of the insert builder over all call sequences (25 actions, length <= 3 quick / <= 4 thorough; rows handed over as a Vec, as an iterator whose size_hint overestimates and as one without a size hint) and trace validation of the real builder on the same histories plus random longer ones: per step the Result (both counts), `stmt == clone` after a rejection, and the parsed VALUES list of all three renderings against the rows the history has had accepted.",
+         "Model checking of the insert builder over all call sequences (25 actions, length <= 3 quick / <= 4 thorough; rows handed over as a Vec, as an iterator whose size_hint overestimates and as one without a size hint) and trace validation of the real builder on the same histories plus random longer ones: per step the Result (both counts, and the order in which the error's message gives them), `stmt == clone` after a rejection, and the parsed VALUES list of all three renderings against the rows the history has had accepted.",
          "Trusted: TLC; the INSERT parser of Insert.tla. Known findings: columns() re-declared after rows; zero-column rows (see known_findings.json).",
          "§5 C10"),
  "C11": ("CustomWithExpr token loop and inject_parameters transcribed in TLA+ over the Tokenizer model; property-level TemplateAbs defines placeholders independently; TLC checks impl = abs on every template assembled from <= 3/4 items, generates them, and validates the recorded expansions (inline, parameterised, bound values, inject_parameters) of the real code",
@@ -66,7 +66,7 @@ CLAIMED = {
          "Trusted: SQLite 3.40.1; RefStmt.tla as the meaning of the builder calls; TLC.",
          "§5 C07"),
  "C08": ("Clause-level grammars of MySQL and PostgreSQL for the emitted subset written in TLA+ (EngineGrammar.tla) and the expected abstract statement per dialect (GrammarLaw!Expected); TLC parses the real renderings of all generated statements and compares clause by clause",
-         "Trace validation of the real MySQL / PostgreSQL renderings of the TLC-generated statement space: ParseStmt_B(Lex_B(sql)) must be accepted and equal Expected(B, builder state) — every supported clause once, in the position the grammar requires, items in call order, expressions as built, dialect forms (ON DUPLICATE KEY UPDATE / VALUES(col), UPDATE..JOIN..ON, ROW(..), NULLS emulation, index hints; DISTINCT ON, excluded.col, NULLS FIRST/LAST) in their own dialect only.",
+         "Trace validation of the real MySQL / PostgreSQL renderings of the TLC-generated statement space: ParseStmt_B(Lex_B(sql)) must be accepted and equal Expected(B, builder state) — every supported clause once, in the position the grammar requires, items in call order, expressions as built, dialect forms (ON DUPLICATE KEY UPDATE / VALUES(col), UPDATE..JOIN..ON, ROW(..), NULLS emulation, index hints; DISTINCT ON, excluded.col, NULLS FIRST/LAST) in their own dialect only — the constructs the property names as one dialect's are looked for in every rendering of the other, also of statements that were given such a construct (GrammarLaw!ForeignReasons).",
          "Trusted: the transcribed MySQL 8.0 / PostgreSQL 15 grammars (no engine available; permissive where the manuals are silent). Several known findings (named WINDOW clause, WITH before INSERT, ON DUPLICATE KEY IGNORE, dropped second JOIN table).",
          "§5 C08, Appendix C.3"),
  "C09": ("Portable(s) feature subset and a token-level transliteration MySQL/PostgreSQL -> SQLite spelling in TLA+ (Portable.tla); TLC requires token equality of the transliterated renderings with the SQLite rendering; the three texts are executed on the real SQLite and must agree",
